@@ -14,7 +14,8 @@
 (* (C14: statelessness; C13: every index stays inside 0..n-1).             *)
 (***************************************************************************)
 EXTENDS BinPack, TLC
-CONSTANTS MaxSide, MaxTypes, MaxRep, MaxN
+CONSTANTS MaxSide, MaxTypes, MaxRep, MaxN,
+          Slim     \* TRUE: encoding 2 only and a single choice of old contents (for larger scopes)
 VARIABLES inst, x, enc, y, bs, be, nb, i, bstart, readOld
 vars == <<inst, x, enc, y, bs, be, nb, i, bstart, readOld>>
 
@@ -30,10 +31,10 @@ PermsOf(in) == {s \in [1..NItems(in) -> SignedIds(in)] : ValidPerm(in, s)}
 \* old contents: a row that looks like a real item at the origin of bin 1 / of bin 2, or zeros
 OldRows == {<<1, 1, 0, 0, 1, 1>>, <<1, 2, 0, 0, 1, 1>>, <<0, 0, 0, 0, 0, 0>>}
 Init == /\ inst \in {in \in Instances : NItems(in) <= MaxN}
-        /\ x \in PermsOf(inst) /\ enc \in {1, 2}
-        /\ \E r \in OldRows : y = [k \in 1..NItems(inst) |-> r]
-        /\ \E a \in {0, NItems(inst)} : bs = [k \in 1..NItems(inst) |-> a]
-        /\ \E a \in {0, NItems(inst)} : be = [k \in 1..NItems(inst) |-> a]
+        /\ x \in PermsOf(inst) /\ enc \in (IF Slim THEN {2} ELSE {1, 2})
+        /\ \E r \in (IF Slim THEN {<<1, 1, 0, 0, 1, 1>>} ELSE OldRows) : y = [k \in 1..NItems(inst) |-> r]
+        /\ \E a \in (IF Slim THEN {0} ELSE {0, NItems(inst)}) : bs = [k \in 1..NItems(inst) |-> a]
+        /\ \E a \in (IF Slim THEN {NItems(inst)} ELSE {0, NItems(inst)}) : be = [k \in 1..NItems(inst) |-> a]
         /\ nb = 1 /\ i = 1 /\ bstart = 0 /\ readOld = FALSE
 
 n == NItems(inst)
